@@ -103,10 +103,7 @@ Theorem c11_recovers :
     /\ fst (run_collect sh readdir H avail pct clock mode co
                         (Some (truncate_latest readdir pid k left)) term chain)
        = run_plain sh mode term chain.
-Proof.
-  intros sh readdir H avail pct clock Hav d0 max0 h junk k mode co term chain pid left.
-  split; apply (run_collect_transparent sh readdir H avail pct clock Hav).
-Qed.
+Proof. exact recovers. Qed.
 
 (* ------------------------------------------------------------------ 4. the repaired defect *)
 
